@@ -1,9 +1,14 @@
 import CoapVerif.Driver.Block
 import CoapVerif.Model.BlockTok
+import CoapVerif.Model.BlockNetTok
+import CoapVerif.Model.BlockNetTok1
+import CoapVerif.Driver.BlockXmit
 /- Line-protocol driver for Model/BlockTok.lean (C09): the client's Block2 receive path with `sent` possibly NULL (`crcvs`)
    and `coap_check_update_token` (`ctok`).  Output formats mirror harness/block.c (`do_crcv_x`, `do_ctok`). -/
 -- DRIVER-OPS: crcvs => Coap.Driver.BlockTok.crcvsLine
 -- DRIVER-OPS: ctok => Coap.Driver.BlockTok.ctokLine
+-- DRIVER-OPS: crcvt => Coap.Driver.BlockTok.crcvtLine
+-- DRIVER-OPS: xmit1t => Coap.Driver.BlockTok.xmit1tLine
 namespace Coap.Driver.BlockTok
 open Coap Coap.Block Coap.Driver.Block
 
@@ -62,6 +67,140 @@ def ctokLine (args : List String) : String :=
       if tok.length > 8 ∨ crcvs.length > 8 ∨ xmits.length > 8 then "bad-op"
       else "M " ++ hexOrDash (checkUpdateToken crcvs xmits (isReq != 0) tok)
     | _, _, _, _ => "bad-op"
+  | _ => "bad-op"
+
+/-! ## `crcvt`: the same with tokens (Model/BlockNetTok.lean); output format of `do_crcvt` -/
+
+def showCliT (c : CliT) : String :=
+  if c.crcvs.isEmpty then "/-" else
+  "/" ++ String.intercalate "|" (c.crcvs.map fun e =>
+    s!"{hexOrDash e.appTok}.{stateTokenBase e.state}.{e.retry}.{showCrcvState (some e.lg)}")
+
+def appTokT : Bytes := [0xa1, 0xa1, 0xa1, 0xa1]
+
+def crcvtRun (single : Bool) (body : Bytes) (size2 : Option Nat) (tx0 : Nat) :
+    List String → CliT → Bytes → List String → List String
+  | [], _, _, acc => acc.reverse
+  | it :: rest, c, last, acc =>
+    if it = "n" then
+      let c' := cliSendT c appTokT
+      crcvtRun single body size2 tx0 rest c' appTokT (("n+q?t" ++ hexOrDash appTokT ++ showCliT c') :: acc)
+    else if it.startsWith "x" then
+      match (it.drop 1).toString.toNat? with
+      | some i =>
+        let c' := cliExpireT c i
+        crcvtRun single body size2 tx0 rest c' last (("x" ++ showCliT c') :: acc)
+      | none => ("bad-op" :: acc).reverse
+    else
+    match splitNats it '.' with
+    | some [t, u, num, m, szx, etag, fmt] =>
+      if t > 2 ∨ u > 2 ∨ szx > 6 ∨ m > 1 ∨ etag > 255 ∨ fmt > 255 then ("bad-op" :: acc).reverse else
+      let tok : Bytes := if t = 0 then appTokT else if t = 1 then last
+                         else encodeVar8 (stateTokenFull ((tx0 + 1000) % 2 ^ 64) 3)
+      let chunk := 2 ^ (szx + 4)
+      let off := if num * chunk > body.length then body.length else num * chunk
+      let plen := if body.length - off < chunk then body.length - off else chunk
+      let r : Resp := { blk := some (num, m, szx), payload := (body.drop off).take plen, size2 := size2,
+                        etag := if etag = 0 then none else some [UInt8.ofNat etag], fmt := fmt }
+      let sentTok : Option Bytes := if u = 1 then none else if u = 2 then some tok else some appTokT
+      let res := crcvStepT single Coap.Generated.rblockCnt 0 c sentTok tok r
+      let x := res.2
+      let line := showCrcvOut x.out ++ (match x.reqTok with | some t => "t" ++ hexOrDash t | none => "") ++
+        (if callsHandler x.out then "T" ++ hexOrDash x.shown else "") ++ showCliT res.1
+      crcvtRun single body size2 tx0 rest res.1 (match x.reqTok with | some t => t | none => last) (line :: acc)
+    | _ => ("bad-op" :: acc).reverse
+
+def crcvtLine (args : List String) : String :=
+  match args with
+  | [a, b, c, d, e, f, seq] =>
+    match nat? a, nat? b, nat? c, nat? e, nat? f with
+    | some single, some bodyLen, some seed, some init, some tx0 =>
+      if tx0 ≥ 2 ^ 64 then "bad-op" else
+      let c0 : CliT := { txTok := tx0 }
+      "M " ++ String.intercalate ","
+        (crcvtRun (single != 0) (mkBody bodyLen seed) (if d = "-" then none else nat? d) tx0
+          ((seq.split (· == ',')).toList.map (·.toString))
+          (if init != 0 then cliSendT c0 appTokT else c0) appTokT [])
+    | _, _, _, _, _ => "bad-op"
+  | _ => "bad-op"
+
+/-! ## `xmit1t`: the client's Block1 path with tokens (Model/BlockNetTok1.lean); output format of `do_xmit1t` -/
+
+open Coap.Driver.BlockXmit in
+def showCli1T (c : Cli1T) : String :=
+  (match c.xmit with
+   | some xm => s!"/X1:{xm.x.blkSize}.{xm.x.offset}." ++ (match xm.x.lastBlock with | some n => toString n | none => "-1") ++
+       s!".{xm.count}.{stateTokenBase xm.state}.{if xm.link then 1 else 0}"
+   | none => "/X0") ++
+  (match c.crcv with
+   | some cr => s!"C1:{hexOrDash cr.appTok}.{stateTokenBase cr.state}.{cr.retry}"
+   | none => "C0")
+
+open Coap.Driver.BlockXmit in
+def xmit1tRun (blk : Option Nat) (body : Bytes) (mtu : Nat) (non : Bool) (tx0 : Nat) :
+    List String → Cli1T → Bytes → List String → List String
+  | [], _, _, acc => acc.reverse
+  | it :: rest, c, last, acc =>
+    if it = "p" then
+      match addDataLarge (mtu - 4) 4 2 11 blk 0 body.length 1 with
+      | none =>
+        -- refused: the supersede search has run, nothing is sent
+        let c' : Cli1T := match c.xmit with
+          | some xm => if appTokT = xm.appTok then { c with xmit := none, released := c.released ++ [stateTokenBase xm.state] } else c
+          | none => c
+        xmit1tRun blk body mtu non tx0 rest c' last (("pfail" ++ showCli1T c') :: acc)
+      | some r =>
+        let first := match r.blockVal with
+          | some v => showMsg (v / 16) ((v / 8) % 2) (v % 8) (body.take r.payload)
+          | none => s!"n:{r.payload}:{hex8 (fnv (body.take r.payload))}"
+        let lgx : Option LgXmit := if r.lgXmit then some { data := body, blkSize := r.blkSize } else none
+        let c' := putStep1T c appTokT lgx (r.lgXmit || non || r.blockVal.isSome) (r.lgXmit || r.blockVal.isSome)
+        xmit1tRun blk body mtu non tx0 rest c' appTokT (("p" ++ first ++ "t" ++ hexOrDash appTokT ++ showCli1T c') :: acc)
+    else if it = "x" then
+      let c' : Cli1T := match c.xmit with
+        | some xm => { c with xmit := none, released := c.released ++ [stateTokenBase xm.state] }
+        | none => c
+      xmit1tRun blk body mtu non tx0 rest c' last (("x" ++ showCli1T c') :: acc)
+    else if it = "y" then
+      let c' : Cli1T := match c.crcv with
+        | some cr => { c with crcv := none, xmit := unlinkXmit c.xmit, released := c.released ++ [stateTokenBase cr.state] }
+        | none => c
+      xmit1tRun blk body mtu non tx0 rest c' last (("y" ++ showCli1T c') :: acc)
+    else
+    match splitNats it '.' with
+    | some (t :: code :: tl) =>
+      if t > 2 ∨ code > 255 ∨ (tl.length ≠ 0 ∧ tl.length ≠ 2) then ("bad-op" :: acc).reverse else
+      let bopt := match tl with | [num, szx] => some (num, szx) | _ => none
+      if (match bopt with | some (num, szx) => decide (szx > 6 ∨ num > 0xFFFFF) | none => false) then ("bad-op" :: acc).reverse else
+      let tok : Bytes := if t = 0 then appTokT else if t = 1 then last
+                         else encodeVar8 (stateTokenFull ((tx0 + 1000) % 2 ^ 64) 3)
+      let ok := code / 32 == 2
+      let used := match c.xmit with
+        | some xm => (match (xmitB1Step xm.x (2 ^ 40) ok bopt).2 with
+                      | .sendNext n m s _ => b1Used n m s xm.x.data.length
+                      | _ => 0)
+        | none => 0
+      let res := rspStep1T (mtu - 4 - used) c tok ok bopt
+      let x := res.2
+      let so := match x.req, x.out with
+        | some ((n, m, sx, p), t), _ => showMsg n m sx p ++ "t" ++ hexOrDash t
+        | none, some .dupIgnored => "i"
+        | none, some .fail500 => "F"
+        | none, _ => "f"
+      let line := so ++ (if x.handler then "T" ++ hexOrDash x.shown else "") ++ showCli1T res.1
+      xmit1tRun blk body mtu non tx0 rest res.1 (match x.req with | some (_, t) => t | none => last) (line :: acc)
+    | _ => ("bad-op" :: acc).reverse
+
+def xmit1tLine (args : List String) : String :=
+  match args with
+  | [a, b, c, d, e, f, seq] =>
+    match nat? b, nat? c, nat? d, nat? e, nat? f with
+    | some bodyLen, some seed, some mtu, some non, some tx0 =>
+      if tx0 ≥ 2 ^ 64 then "bad-op" else
+      "M " ++ String.intercalate ","
+        (xmit1tRun (if a = "-" then none else nat? a) (mkBody bodyLen seed) mtu (non != 0) tx0
+          ((seq.split (· == ',')).toList.map (·.toString)) { txTok := tx0 } appTokT [])
+    | _, _, _, _, _ => "bad-op"
   | _ => "bad-op"
 
 end Coap.Driver.BlockTok
